@@ -795,11 +795,11 @@ class PointJacobi(AbstractPoint):
         """add points when both Z1 and Z2 equal 1"""
         # after:
         # http://hyperelliptic.org/EFD/g1p/auto-shortw-jacobian.html#addition-mmadd-2007-bl
-        H = X2 - X1
+        H = (X2 - X1) % p
         HH = H * H
         I = 4 * HH % p
         J = H * I
-        r = 2 * (Y2 - Y1)
+        r = 2 * (Y2 - Y1) % p
         if not H and not r:
             return self._double_with_z_1(X1, Y1, p, self.__curve.a())
         V = X1 * I
